@@ -97,9 +97,10 @@ def check(run, repo, world):
         "(R-DEVSEQ-QUIET) the scan is bracketed by quiescent mode, every bad "
         "answer leads to a skip, add_type only with the current "
         "address/instance after enabled+type answers; (R-DEVSEQ-RANGE) the "
-        "default scan range folds to all 64 addresses.  NOT decided: the "
-        "shift/accumulate arithmetic of query_input_value for all "
-        "resolutions (value property).")
+        "default scan range folds to all 64 addresses; (R-INPUT-ARITH) "
+        "query_input_value reads ceil(R/8)-1 latch bytes MSB first and "
+        "drops (8 - R mod 8) mod 8 bits, as closed forms in R = 8q + r for "
+        "each residue r with q symbolic.")
     run.assumptions += ["check_bad_rsp(r) is False only for a clean answer "
                         "with a usable value (decided separately below)"]
     smod = repo.mod(SEQ)
